@@ -129,8 +129,27 @@ CLAIMED = {
 NOT_APPLICABLE = {}
 TODO_REASON = 'check not built yet in this round (planned, see DESIGN.md section 5)'
 
+# properties whose model functions are additionally tied to the source by translator T7 (function bodies re-executed symbolically from
+# /repo on every run, `Src.f = Model.f` proved in BC/Props/<id>Src.lean; DESIGN.md section 0.8)
+SRC_TIES = {
+    'C01': 'the loop-body statements of _integrate (the integration step), the initial state, the Vector operators, Wind.vector, barrel elevation/azimuth, drag_by_mach',
+    'C03': '_TrajectoryDataFilter.__init__/should_record/check_next_time and the skip loop',
+    'C04': 'the limit check (three limits, reason chain), the while condition and min_step of _integrate',
+    'C05': 'create_trajectory_row with the _new_* constructors, get_correction, calculate_energy/ogw, spin_drift, calc_stability_coefficient',
+    'C08': 'eleven Atmo functions incl. calculate_air_density and get_density_factor_and_mach_for_altitude',
+    'C11': 'should_record and clear_current_flag',
+    'C12': '_WindSock.__init__/update_cache/vector_for_range/current_vector and Wind.vector',
+    'C15': 'setup_seen_zero, check_zero_crossing, check_mach_crossing, should_record',
+    'C17': 'Ammo.get_velocity_for_temp and calc_powder_sens with its guard',
+    'C19': 'Sight.get_adjustment with _adjust_sfp_reticle_steps per focal plane',
+}
+
 checks = []
 for pid, (text, tech, ref) in sorted(CLAIMED.items()):
+    if pid in SRC_TIES:
+        text += (' SOURCE TIES: ' + SRC_TIES[pid] + ' are re-executed symbolically from the Python source on every run (translate/t_funcs.py) '
+                 'and proved equal to the model functions these theorems are about (kernel-checked, generic number type).')
+        tech += '; function bodies regenerated from the source by symbolic execution and proved equal to the model (source-tie theorems)'
     checks.append({
         'property_id': pid,
         'quick_cmd': f'./check.py {pid} --tier quick',
@@ -156,7 +175,8 @@ man = {
     'engines': [{'name': 'lean4-proof+correspondence', 'path': 'check.py',
                  'serves_properties': sorted(CLAIMED),
                  'kind_free_text': 'Lean 4 theorems about a generic model (R for proofs, Float for execution); model tied to /repo by '
-                                   'translators re-run on every check and by a bit-exact differential run against the implementation; '
+                                   'translators re-run on every check (data tables, constants, unit chains, read/write sets AND function bodies with '
+                                   'source-tie theorems) and by a bit-exact differential run against the implementation; '
                                    'property-level search on the real code produces the replay when an obligation breaks'}],
     'checks': checks,
     'not_applicable': na,
